@@ -56,6 +56,7 @@ def rule_return_self_and_components(repo, rep):
 # ---------------------------------------------------------------- DTYPE
 import ast as _ast
 from ..tags import EMPTY as _EMPTY
+from .. import astutil as _astutil
 from ..model import canon as _canon
 from ..engine import V as _V, NOCONST as _NOCONST
 
@@ -147,23 +148,10 @@ def rule_real_components(repo, rep):
 
 
 # ------------------------------------------------------------ DEFASSIGN
-DEFASSIGN_EXEMPT = {
-    ('sdml._BaseSDML._fit', 'M'):
-        'M is bound whenever raised_error is None; the other paths raise '
-        'RuntimeError before the use',
-    ('scml._BaseSCML._fit', 'best_w'):
-        'bound once an objective < inf has been evaluated '
-        '(max_iter >= output_iter >= 1 in the property\'s quantifier)',
-    ('mmc._BaseMMC._fit_diag', 'w_previous'):
-        'the inner while runs at least once: obj_previous = inf and '
-        'assert_all_finite(obj) precede it',
-    ('scml._BaseSCML._initialize_basis', 'basis'):
-        "only called when _initialize_basis_supervised returned None, i.e. "
-        "self.basis != 'lda'",
-    ('scml._BaseSCML._initialize_basis', 'n_basis'):
-        "only called when _initialize_basis_supervised returned None, i.e. "
-        "self.basis != 'lda'",
-}
+# No name-keyed exemptions: the idioms that make a conditionally bound local
+# safe are recognised structurally (DefDomain._while_runs_once,
+# DefDomain._best_so_far) or decided by the path facts of the fork mode.
+DEFASSIGN_EXEMPT = {}
 
 
 class DefDomain(TagDomain):
@@ -176,12 +164,16 @@ class DefDomain(TagDomain):
     super().__init__()
     self.hypers = hypers
     self.problems = []
+    self.idioms = set()
 
   def event(self, st, ev):
     pass          # no event bookkeeping: identical states can be merged
 
   def loop_may_skip(self, node, itv, st):
     # loops over range(<hyper-parameter>): max_iter >= 1 in the quantifier
+    if isinstance(node, _ast.While) and self.cur() is not None and \
+            self._while_runs_once(node, self.cur()):
+      return False
     if isinstance(node, _ast.For):
       for n in _ast.walk(node.iter):
         if isinstance(n, _ast.Attribute) and isinstance(n.value, _ast.Name) \
@@ -198,11 +190,84 @@ class DefDomain(TagDomain):
         return False
     return True
 
+  def _is_inf(self, e, fn):
+    d = self.eng.repo.dotted(fn.module, e) if fn is not None else None
+    return d in ('numpy.inf', 'numpy.Inf', 'numpy.infty', 'math.inf') or \
+        _ast.unparse(e) in ("float('inf')", 'float("inf")')
+
+  def _inf_before(self, fn, name, node):
+    """`name = inf` is the last assignment to `name` textually before
+    `node` in its own block (nothing in between rebinds it)"""
+    pm = _astutil.parents(fn.node)
+    blk = pm.get(node)
+    for fld in ('body', 'orelse', 'finalbody'):
+      body = getattr(blk, fld, None)
+      if isinstance(body, list) and node in body:
+        last = None
+        for s_ in body[:body.index(node)]:
+          for n_ in _ast.walk(s_):
+            if isinstance(n_, (_ast.Assign, _ast.AugAssign)):
+              tg = n_.targets if isinstance(n_, _ast.Assign) else [n_.target]
+              for t_ in tg:
+                for x in _ast.walk(t_):
+                  if isinstance(x, _ast.Name) and x.id == name:
+                    last = n_
+        return isinstance(last, _ast.Assign) and self._is_inf(last.value, fn)
+    return False
+
+  def _while_runs_once(self, node, fn):
+    # while a < b: entered at least once when b = inf was just assigned (a is
+    # a finite objective value: the repository asserts it with
+    # assert_all_finite, NaN is excluded by the property's quantifier)
+    t = node.test
+    if isinstance(t, _ast.Compare) and len(t.ops) == 1 and \
+            isinstance(t.ops[0], _ast.Lt) and \
+            isinstance(t.comparators[0], _ast.Name):
+      return self._inf_before(fn, t.comparators[0].id, node)
+    return False
+
+  def _best_so_far(self, name, fn):
+    """every assignment to `name` sits directly under `if a < b:` whose
+    body also sets b = a, b starting at inf before the enclosing loop: the
+    first evaluated checkpoint binds it"""
+    pm = _astutil.parents(fn.node)
+    asg = [n_ for n_ in _ast.walk(fn.node) if isinstance(n_, _ast.Assign) and
+           any(isinstance(x, _ast.Name) and x.id == name
+               for t_ in n_.targets for x in _ast.walk(t_))]
+    if not asg:
+      return False
+    for a_ in asg:
+      blk = pm.get(a_)
+      if not (isinstance(blk, _ast.If) and a_ in blk.body and
+              isinstance(blk.test, _ast.Compare) and len(blk.test.ops) == 1
+              and isinstance(blk.test.ops[0], _ast.Lt) and
+              isinstance(blk.test.comparators[0], _ast.Name) and
+              isinstance(blk.test.left, _ast.Name)):
+        return False
+      b, a = blk.test.comparators[0].id, blk.test.left.id
+      if not any(isinstance(s_, _ast.Assign) and
+                 _ast.unparse(s_.targets[0]) == b and
+                 _ast.unparse(s_.value) == a for s_ in blk.body):
+        return False
+      # b = inf before the loop that contains the checkpoint
+      n_ = blk
+      loop = None
+      while n_ in pm:
+        n_ = pm[n_]
+        if isinstance(n_, (_ast.For, _ast.While)):
+          loop = n_
+      if loop is None or not self._inf_before(fn, b, loop):
+        return False
+    return True
+
   def _facts(self, st):
     b = st.vars.get(('self', 'basis'))
     return {'self.basis': b.c if isinstance(b, _V) else None}
 
   def maybe_unbound_read(self, name, node, st):
+    if self.cur() is not None and self._best_so_far(name, self.cur()):
+      self.idioms.add((self.cur().key, 'best-so-far checkpoint'))
+      return
     self.problems.append(('unbound', name, self.site(node), self.cur(),
                           self._facts(st)))
 
